@@ -285,11 +285,20 @@ class FaultMonitor(solvex.Monitor):
                         s.obj, min(before), first["letter"], first["k"], first["site"], s.msg))
 
 
+def raise_is_allowed(ex):
+    """solve may raise only if the objective itself raised (the 'raise' letter) or the user opted into
+    interpolation.throw_error_on_nans and the exception is numpy's LinAlgError."""
+    if any(c["letter"] == "raise" for c in ex.calls):
+        return True
+    optin = bool((ex.cfg.get("user_params") or {}).get("interpolation.throw_error_on_nans"))
+    return optin and type(ex.exc).__name__ == "LinAlgError"
+
+
 class ReturnsMonitor(solvex.Monitor):
     """Valid configuration: solve must return a result object that is not an input error (C07 clause e)."""
 
     def on_end(self, ex):
-        if ex.outcome == "raised" and not any(c["letter"] == "raise" for c in ex.calls):
+        if ex.outcome == "raised" and not raise_is_allowed(ex):
             ex.violate("returns", "solve raised %s: %s" % (type(ex.exc).__name__, ex.exc))
         elif ex.outcome == "returned" and ex.soln.flag == INPUT_ERROR:
             ex.violate("returns", "input error for a valid configuration: %s" % ex.soln.msg)
